@@ -1,5 +1,7 @@
 mod c02;
 mod c04;
+mod c11;
+mod c12;
 mod c14;
 mod c16;
 mod corescn;
@@ -65,6 +67,7 @@ fn main() {
     if args[1] == "persist-child" {
         std::process::exit(persist::child_main(&args[2..]));
     }
+    c12::init_role_configs();
     mc::util::install_quiet_panic_hook();
     let property = args[1].as_str();
     let known = Known::load();
@@ -104,6 +107,45 @@ fn main() {
             "every history over the listed request alphabet (mutators + ls subscriptions at every position) up to the completed depth, de-duplicated by a complete state snapshot; distinct_nontrivial counts distinct (request kind, answer class) pairs observed",
         ),
         "C04" => c04::run(&tier),
+        "C11" => run_scenarios(
+            "C11",
+            &tier,
+            "model_checking",
+            vec![(
+                "replication".into(),
+                Box::new(c11::scenario(known.open_for("C11"), if tier == "thorough" { 2 } else { 1 })),
+                Tiered { quick: lim(4, 3, true, 45), thorough: lim(7, 4, true, 600) },
+                "graph",
+            )],
+            &[
+                "component level: the real branch bodies of the leader loop and of the follower are called one event at a time; the leader loop's biased priority is honoured (pending grave-goods/last-will events are forwarded before the next join or request), so no explored schedule is one the real loop cannot produce",
+                "what travels over the TCP sync connection is passed through the real JSON encoding of LeaderSyncMessage; the socket itself (ordered byte stream) is not part of the exploration",
+                "a follower applies its command stream in order, so delivering everything after each leader step explores all outcomes: its state is a function of (initial sync, command sequence)",
+                "quiescence = every command the leader sent has been applied (channels drained), never a wait",
+            ],
+            "every history of leader-side client activity (connect/disconnect, writes accepted and rejected, deletes, pdeletes, imports, grave-goods/last-will registrations of two clients), follower joins at every position and writes offered to the follower, up to the completed depth, de-duplicated by leader snapshot + follower contents; distinct_nontrivial counts distinct (request kind, outcome) pairs",
+        ),
+        "C12" => {
+            let code = run_scenarios(
+                "C12",
+                &tier,
+                "model_checking",
+                vec![(
+                    "promotion".into(),
+                    Box::new(c12::scenario(known.open_for("C12"))),
+                    Tiered { quick: lim(4, 3, true, 50), thorough: lim(6, 4, true, 600) },
+                    "graph",
+                )],
+                &[
+                    "component level: leader branch bodies as in C11; the follower node's core comes from the real persistence::restore with the configuration Config::new(Some(Args{--follower ...})) yields when only WORTERBUCH_DATA_DIR is in the environment (what the orchestrator passes); its flush points are those of run_in_follower_mode (after the initial sync, on persistence ticks, in the shutdown sequence); promotion = real restore with the --leader configuration on the same directory",
+                    "the orchestrator stops a follower by closing its stdin (shutdown sequence), which is what is modelled; a killed follower is C10's subject",
+                    "JSON persistence (the default mode); sockets and the election are not part of this check (C19)",
+                ],
+                "every leader history (connect/disconnect, writes, deletes, registrations of two clients) with the follower joining at every position, persistence ticks at every position and the leader lost at every quiescent position, up to the completed depth; a promotion ends a history; distinct_nontrivial counts distinct (step kind, outcome) pairs",
+            );
+            std::fs::remove_dir_all(persist::scratch_root()).ok();
+            code
+        }
         "C14" => c14::run(&tier),
         "C16" => run_scenarios(
             "C16",
